@@ -47,6 +47,11 @@ def templates(tier):
     yield 'in-branch', [P({'ret': ['ok'], 'diag': ['A'], 'plug': True}), ['br', [cond, ['A']], [G([s], [P(m)], [P(t)])]], P(OK)]
   for s1, m1, t1, s2, m2, t2 in itertools.product(S_ALPHA, M_ALPHA, T_ALPHA, S_ALPHA, M_ALPHA, T_ALPHA):
     yield 'two-in-sequence', [G([s1], [P(m1)], [P(t1)]), G([s2], [P(m2)], [P(t2)]), P(OK)]
+  # groups without main nodes / without setup nodes other than the sentinel (every slot of a group is optional)
+  for s, t1, t2 in itertools.product(S_ALPHA, T_ALPHA, T_ALPHA[:2]):
+    yield 'no-main', [G([s], [], [P(t1), P(t2)]), P(OK)]
+    yield 'no-main-in-subtest', [['sub', [G([s], [], [P(t1), P(t2)]), P(OK)]], P(OK)]
+    yield 'no-main-nested', [G([], [G([s], [], [P(t1)])], [P(t2)]), P(OK)]
   # teardown nodes that are not plain phases: a branch (and a checkpoint) in the teardown of a group inside a subtest
   # that main -- or an earlier phase -- may already have failed
   DA = {'ret': ['ok'], 'diag': ['A']}
@@ -55,6 +60,12 @@ def templates(tier):
     yield 'td-branch-in-subtest', [['sub', [P(p0), G([s], [P(m)], [['br', [cond, ['A']], [P(t)]], ['c', 'last', 'stop'], P(t2)]), P(OK)]], P(OK)]
   for s, m, cond, t in itertools.product(S_ALPHA[:2], M_ALPHA, ['any', 'not_any'], T_ALPHA[:3]):
     yield 'td-branch', [P({'ret': ['ok'], 'diag': ['A'], 'plug': True}), G([s], [P(m)], [['br', [cond, ['A']], [P(t)]], P(OK)]), P(OK)]
+  # a checkpoint as last setup node of a group nested in a teardown, after an earlier terminal (or merely failed) main
+  for m0, ck, m, t in itertools.product(M_ALPHA, [('all', 'stop'), ('last', 'stop'), ('all', 'fs')], M_ALPHA[:3], T_ALPHA[:2]):
+    yield 'ckpt-setup-in-teardown', [['grp', [P(SENT)], [P({'ret': ['fail']}), P(m0)],
+                                      [['grp', [P(SENT), ['c', ck[0], ck[1]]], [P(m)], [P(t)]], P(OK)]], P(OK)]
+  for m0, ck, m, t in itertools.product(M_ALPHA[:3], [('all', 'stop'), ('last', 'stop')], M_ALPHA[:3], T_ALPHA[:2]):
+    yield 'ckpt-setup', [P({'ret': ['ok'], 'plug': True}), P(m0), ['grp', [P(SENT), ['c', ck[0], ck[1]]], [P(m)], [P(t)]], P(OK)]
   if tier == 'thorough':
     for m0, s, m, t, s2, m2, t2, ot in itertools.product(M_ALPHA[:4], S_ALPHA, M_ALPHA[:4], T_ALPHA, S_ALPHA, M_ALPHA[:4], T_ALPHA, T_ALPHA[:3]):
       yield 'two-in-main', [G([], [P(m0), G([s], [P(m)], [P(t)]), G([s2], [P(m2)], [P(t2)])], [P(ot)]), P(OK)]
@@ -115,6 +126,12 @@ def check_groups(spec, obs):
           for s in setup:
             r = last_rec.get(s)
             if r is None or rec_terminal(r) or r[2] == 'FAIL_SUBTEST' or r[1] == 'SKIP':
+              entered = False
+        # a checkpoint among the setup nodes that fired (STOP / FAIL_SUBTEST ...) means setup did not complete either
+        for c in n['setup']:
+          if c['k'] == 'c':
+            recs = [b for b in obs.get('checkpoints', []) if b[0] == c['name']]
+            if not recs or recs[-1][1] not in ('CONTINUE', 'NONE'):
               entered = False
         direct_td = [c['name'] for c in n['teardown'] if c['k'] == 'p']
         if entered:
@@ -177,7 +194,11 @@ def _work(item):
     if i % step != start:
       continue
     n += 1
-    obs = progs.run_spec(spec)
+    # CONF.capture_source makes Test() rebuild the node tree (load_code_info): every 3rd template also runs that way
+    settings = {'capture_source': True} if (i % 3 == 0 or label.startswith('no-main')) and i % 2 == 0 else {}
+    obs = progs.run_spec(spec, settings, test_start=(lambda: 'dut') if settings else None)
+    if settings:
+      label += '+capture_source'
     bad = check_groups(spec, obs)
     outcomes.add((label, obs.get('outcome'), tuple(c[0] for c in obs['calls'] if c[0] != 'plug_init')))
     if sample is None and i > 100:
